@@ -202,13 +202,17 @@ func Observe(sh *shard.Shard, addrs []oid.Address) Reads {
 	for i, a := range addrs {
 		o, err := sh.Get(a, false)
 		v := ReadClass(err)
-		if err == nil {
+		if err == nil && o == nil {
+			v += ":nil-object"
+		} else if err == nil {
 			v += ":" + Sum(o.Marshal())
 		}
 		r[fmt.Sprintf("get %d", i)] = v
 		h, err := sh.Head(a, false)
 		v = ReadClass(err)
-		if err == nil {
+		if err == nil && h == nil {
+			v += ":nil-header" // Head(parent) whose found child carries no parent header
+		} else if err == nil {
 			v += ":" + Sum(h.CutPayload().Marshal())
 		}
 		r[fmt.Sprintf("head %d", i)] = v
